@@ -145,7 +145,10 @@ def run(ctx):
     scens = []
     for _ in range(ctx.scale(120, 12000)):
         comps, sess = [], []
-        for k, f in enumerate(["a.tsv", "b.tsv"]):
+        # sibling output names, including dotted names that share a prefix / differ only after a dot
+        names2 = rng.choice([["a.tsv", "b.tsv"], ["run.fold0.tsv", "run.fold1.tsv"], ["exp.tsv", "exp.v1.tsv"], ["x_1.tsv", "x_2.tsv"],
+                             ["res.a.b.tsv", "res.a.c.tsv"], ["a.tsv", "b.tsv"]])
+        for k, f in enumerate(names2):
             init, rows = rng.choice(INITS)
             calls = rng.choice([[ev("s1")], [ev("s1"), ev("s2")], [ev("s1"), ev("s1")], [ev("s2"), ["s"]]])
             comps.append({"file": f, "init": init, "init_rows": rows or [], "stale_buf": rng.choice(STALE), "h": 7, "calls": calls})
